@@ -311,9 +311,18 @@ def ang_prop_check(ctx, c, outs):
         pass
     if warned:
         return "loading orix's own .ang file issues the unexpected-number-of-columns warning"
+    shape_msg = None
     if tuple(y.shape) != tuple(xmap.shape):
-        return f"shape {tuple(xmap.shape)} came back as {tuple(y.shape)}"
-    for a in ("dx", "dy"):
+        squeezed = tuple(d for d in xmap.shape if d != 1)
+        if len(xmap.shape) == 2 and 1 in xmap.shape and xmap.size > 1 and tuple(y.shape) == squeezed:
+            # known finding C14-singleton-extent: reported only if nothing else is wrong (everything else is still checked)
+            shape_msg = (f"shape {tuple(xmap.shape)} came back as {tuple(y.shape)}: a 2-D map whose in-data extent is a single "
+                         f"row or column comes back 1-D, without the step size along the lost axis")
+        else:
+            return f"shape {tuple(xmap.shape)} came back as {tuple(y.shape)}"
+    for a, ax in (("dx", 1), ("dy", 0)):
+        if shape_msg is not None and xmap.shape[ax] == 1:
+            continue                                       # the step along the lost axis belongs to the same finding
         if abs(float(getattr(y, a)) - float(getattr(xmap, a))) > 1e-9:
             return f"step size {a} = {getattr(xmap, a)} came back as {getattr(y, a)}"
     n = int(np.prod(c["shape"]))
@@ -402,7 +411,7 @@ def ang_prop_check(ctx, c, outs):
     exp_ids = [order.get(int(pid[j]), -1) if (mask[j] and pid[j] != -1) else -1 for j in full]
     if y.phase_id.tolist() != exp_ids:
         return f"phase ids {exp_ids[:12]}… came back as {y.phase_id.tolist()[:12]}…"
-    return dropped_msg
+    return shape_msg or dropped_msg
 
 
 SITES = {
@@ -452,7 +461,19 @@ def pred_nan_or_bool_property(c):
     return any(p["dtype"] == "bool" or any(isinstance(v, float) and v != v for v in p["vals"]) for p in c["props"])
 
 
-PREDICATES = {"unused_phase": pred_unused_phase, "extra_prop_name": pred_extra_prop_name,
+def pred_singleton_extent(c, what=None):
+    """finding C14-singleton-extent: a 2-D grid whose in-data mask leaves a single row or a single column (more than one point)"""
+    if len(c["shape"]) != 2 or c.get("mask") is None or "single row or column comes back 1-D" not in (what or ""):
+        return False
+    m = np.array(c["mask"], bool).reshape(tuple(c["shape"]))
+    rows, cols = np.nonzero(m.any(axis=1))[0], np.nonzero(m.any(axis=0))[0]
+    if not len(rows):
+        return False
+    ext = (rows.max() - rows.min() + 1, cols.max() - cols.min() + 1)
+    return 1 in ext and max(ext) > 1
+
+
+PREDICATES = {"singleton_extent": pred_singleton_extent, "unused_phase": pred_unused_phase, "extra_prop_name": pred_extra_prop_name,
               "nan_or_bool_property": pred_nan_or_bool_property, "single_point": pred_single_point,
               }
 
@@ -603,6 +624,16 @@ def generate(ctx):
             m[rng.permutation(9)[:3]] = True
             c = G.grid_case(rng, shape, nphases=1, mask=m, with_structure=False, props=rand_props(rng, 1))
             yield from emit("tiny/three_points_in_data", c)
+        # a 2-D grid whose in-data mask leaves one row / one column (known: comes back 1-D, finding C14-singleton-extent)
+        for rep in range(2):
+            shape = [3, 4]
+            mm = np.zeros(shape, bool)
+            if rep == 0:
+                mm[int(rng.integers(3)), :] = True
+            else:
+                mm[:, int(rng.integers(4))] = True
+            c = G.grid_case(rng, shape, nphases=1, mask=mm.ravel(), with_structure=False, props=rand_props(rng, 1))
+            yield from emit("known/singleton_extent", c)
         # multi-word phase names
         for rep in range(2 if quick else 4):
             c = G.grid_case(rng, [3, 4], nphases=2, with_structure=False)
